@@ -48,6 +48,7 @@ fn main() {
         let v: serde_json::Value = serde_json::from_str(&text).expect("replay file is not JSON");
         let case = &v["case"];
         let code = match id.as_str() {
+            "C01" => props::c01::replay(case),
             "C02" => props::c02::replay(case),
             "C03" => props::c03::replay(case),
             "C04" => props::c04::replay(case),
@@ -69,6 +70,7 @@ fn main() {
         std::process::exit(code);
     }
     let code = match id.as_str() {
+        "C01" => props::c01::run(tier),
         "C02" => props::c02::run(tier),
         "C03" => props::c03::run(tier),
         "C04" => props::c04::run(tier),
